@@ -239,13 +239,13 @@ MAX_MOF_LINE = 80
 # by DSP0207 is optional for pywbem.
 WBEM_URI_CLASSPATH_REGEXP = re.compile(
     r'^(?:([\w\-]+):)?'  # namespace type (URI scheme)
-    r'(?://([\w.:@\[\]\-]*))?'  # authority (host)
+    r'(?://([\w.:@\[\]\-%]*))?'  # authority (host; '%' for zone ID '%25')
     r'(?:/|^/?)(\w+(?:/\w+)*)?'  # namespace name (leading slash optional)
     r'(?::|^:?)(\w+)$',  # class name (leading colon optional)
     flags=re.UNICODE)
 WBEM_URI_INSTANCEPATH_REGEXP = re.compile(
     r'^(?:([\w\-]+):)?'  # namespace type (URI scheme)
-    r'(?://([\w.:@\[\]\-]*))?'  # authority (host)
+    r'(?://([\w.:@\[\]\-%]*))?'  # authority (host; '%' for zone ID '%25')
     r'(?:/|^/?)(\w+(?:/\w+)*)?'  # namespace name (leading slash optional)
     r'(?::|^:?)(\w+)'  # class name (leading colon optional)
     r'\.(.+)$',  # key bindings
